@@ -157,10 +157,14 @@ def run(prop, seed, tier):
             ('M insert 999 z u8\n', 'u32 n; u16 x[3]; u8 y; u32 v_len; u8 v<4#v_len>; u8 z;', True),
             ('M rename y yy\n', 'u32 n; u16 x[3]; u8 yy; u32 v_len; u8 v<4#v_len>;', True),
             ('Absent static v 2\nM type y u16\n', 'u32 n; u16 x[3]; u16 y; u32 v_len; u8 v<4#v_len>;', True),
+            # a node rename: the rules filed under the NEW name name no node of the input and are ignored
+            ('M rename Item\nM type y u16\nItem type y u64\nItem insert 0 stamp u64\n', 'u32 n; u16 x[3]; u16 y; u32 v_len; u8 v<4#v_len>;', True, 'Item'),
             ('M limited y n\n', None, False), ('M limited x nosuch\n', None, False), ('M static nosuch 2\n', None, False),
             ('M dynamic x nosuch\n', None, False), ('M greedy x\n', None, False), ('M frobnicate x\n', None, False), ('M type y\n', None, False),
         ]
-        for text, want_text, ok in rules:
+        for rule in rules:
+            text, want_text, ok = rule[:3]
+            node_name = rule[3] if len(rule) > 3 else 'M'
             n += 1
             src = sc.write('p%d.xml' % n, base)
             pfile = sc.write('p%d.patch' % n, text)
@@ -176,7 +180,11 @@ def run(prop, seed, tier):
             elif not ok and not err:
                 fail('patch-accepted', text, 'a rule that cannot be applied was accepted')
             elif ok:
-                node = [x for x in nodes['p%d' % n] if x.name == 'M'][0]
+                found = [x for x in nodes['p%d' % n] if x.name == node_name]
+                if not found:
+                    fail('patch-effect', text, 'after the rules there is no node named %s' % node_name)
+                    continue
+                node = found[0]
                 want = spec_from_members(want_text, types)
                 try:
                     got = Ad.from_model(node)
